@@ -435,7 +435,7 @@ func (g *gworld) inactiveDuePids(at time.Time) []uint64 {
 func panicSite(res string) string {
 	switch {
 	case strings.Contains(res, "insufficient funds"):
-		return "panic:refund or burn of deposits fails for lack of funds, gov escrow spent by a proposal message"
+		return "panic:refund or burn of deposits fails for lack of funds"
 	case strings.Contains(res, "division by zero"):
 		return "panic:Tally:Quo"
 	case strings.Contains(res, "nil pointer"):
